@@ -23,7 +23,7 @@ ASSUMPTIONS = [
     "returned flow dicts are read per ordered node pair (parallel arcs pooled); reported cost must lie between the cheapest and "
     "dearest distribution of the pair flows over the parallel arcs (equal for instances without parallel arcs)",
     "default max_iter: status must be OPTIMAL or INFEASIBLE and is judged exactly; stratum ns-maxiter (user-supplied tiny "
-    "max_iter) judges only feasibility and cost bookkeeping of a returned flow, never optimality or INFEASIBLE",
+    "max_iter, 0 included): MAX_ITER is accepted as 'no claim', an OPTIMAL or INFEASIBLE answer is judged exactly as otherwise",
     "termination = return within a step budget of >= 50x the largest step count seen on the unchanged tree for the stratum",
 ]
 QUICK_SCALE = 2.5  # quick-tier multiplier (idle 16-core timing: ~10 s at scale 1)
@@ -253,7 +253,7 @@ def gen(stratum, rng, tier):
             multi = [a + b for a, b in zip(multi, extra)]
         else:
             multi = _multi(rng, n, arcs) if rng.random() < 0.8 else None
-        mi = rng.choice([1, 2, 3, 5, 8]) if stratum == "ns-maxiter" else None
+        mi = rng.choice([0, 1, 2, 3, 5, 8]) if stratum == "ns-maxiter" else None
         return _case(rng, n, arcs, s, t, d, multi, max_iter=mi)
 
     if stratum == "balanced-multi":
@@ -412,19 +412,17 @@ def _judge(obs, who, res, n, arcs, sup, truth, inv=None, show=None, judge_optimu
     st = status_name(res)
     obs.outcome(f"{who}:{st}")
     show = show or (lambda x: x)
+    if st == "MAX_ITER" and not judge_optimum:
+        # a caller-supplied tiny iteration limit ran out: the honest answer, no claim to judge
+        obs.event(f"{who}.maxiter.reported")
+        return None, None
     if st == "INFEASIBLE":
-        if not judge_optimum:
-            obs.event(f"{who}.maxiter.unjudged-infeasible")
-            return None, None
         obs.event(f"{who}.oracle.infeasible")
         if truth is not None:
             obs.violate(f"{who}.wrong-infeasible", f"INFEASIBLE reported, but a feasible flow of cost {truth[0]} exists "
                                                     f"(per-arc flows {short(truth[1], 300)})")
         return "infeasible", None
     if st != "OPTIMAL":
-        if not judge_optimum:
-            obs.event(f"{who}.maxiter.unjudged-status")
-            return None, None
         obs.violate(f"{who}.status", f"status {st}: neither a flow claimed optimal nor INFEASIBLE")
         return None, None
     sol = res.solution
@@ -472,8 +470,7 @@ def _judge(obs, who, res, n, arcs, sup, truth, inv=None, show=None, judge_optimu
         obs.violate(f"{who}.cost-mismatch", f"objective {obj!r}, but the returned flow costs " +
                     (f"{lo}" if lo == hi else f"between {lo} and {hi} (parallel arcs)") + f" (flow {short(sol, 300)})")
     if not judge_optimum:
-        obs.event(f"{who}.maxiter.feasibility-only")
-        return None, None
+        obs.event(f"{who}.maxiter.claim-judged")
     obs.event(f"{who}.oracle.cost")
     if truth is None:
         obs.violate(f"{who}.flow-on-infeasible", f"status OPTIMAL with cost {obj!r}, but no feasible flow exists")
